@@ -3,6 +3,7 @@ package checks
 // C09 — font loading and querying are total on arbitrary bytes (E4: fault enumeration).
 //
 // Fault model: one fault on a valid corpus file.
+//   set8   every byte of the position set  x  {v+1, v-1, 0x00, 0xFF, v^0x80, 0x20}
 //   set16  every 2-byte aligned position p of the position set  x  {0, 1, 0x7FFF, 0x8000, 0xFFFF, v-1, v+1, len(file), len(table)}
 //   set32  every 4-byte aligned position p of the position set  x  {0, 1, 0x7FFFFFFF, 0xFFFFFFFF, len(file)-1, len(file), offsets of (up to 8) other tables}
 //   trunc  the prefix of every length of the truncation set
@@ -29,6 +30,8 @@ import (
 	"sort"
 	"strconv"
 	"strings"
+	"sync"
+	"sync/atomic"
 	"time"
 
 	"verif/corpus"
@@ -142,7 +145,7 @@ func c09positions(b []byte, dir []c09table, full, dirOnly, quick bool) (pos []in
 		}
 		small, head := 256, 64
 		if quick {
-			small, head = 96, 24
+			small, head = 64, 16
 		}
 		if t.len <= small {
 			addP(t.off, t.off+t.len)
@@ -192,12 +195,15 @@ var c09probes = []rune{0, ' ', 'A', 'a', 'f', 'i', '1', 0xE9, 0x301, 0x3A9, 0x5D
 	0x0E33, 0x0D15, 0x0995, 0x0B95, 0x1780, 0x1000, 0x1820, 0x0F40, 0x0D9A, 0x05BC, 0x064E, 0x0651, 0x06DD, 0x2028, 0x7F, 0x80}
 
 type c09env struct {
-	noShape bool // quick tier: faults inside morx (state machine insertions make each shaping take about a second)
-	r       *mc.Reporter
-	shaper  shaping.HarfbuzzShaper
-	glyphs  int
-	thor    bool
-	outcome uint64
+	blk, nblk, idx int  // block filter over the fault sequence
+	noMonitor      bool // replay: let the case finish
+	noShape        bool // quick tier: faults inside morx (state machine insertions make each shaping take about a second)
+	r              *mc.Reporter
+	shaper         shaping.HarfbuzzShaper
+	glyphs         int
+	thor           bool
+	outcome        uint64
+	baseOutcome    uint64
 }
 
 func (e *c09env) glyphQueries(face *font.Face, ft *font.Font, ids []font.GID) {
@@ -338,13 +344,71 @@ func (e *c09env) drive(b []byte) {
 	}
 }
 
+// allocation monitor: the law is also enforced while a case runs, because a forged file can make the decoder
+// allocate for minutes; the worker then ends itself with the violation (it cannot interrupt the library).
+var (
+	c09monOnce   sync.Once
+	c09monLimit  atomic.Uint64 // absolute value of /gc/heap/allocs:bytes not to exceed; 0: no case running
+	c09monCase   atomic.Pointer[c09case]
+	c09monSample = []metrics.Sample{{Name: "/gc/heap/allocs:bytes"}}
+)
+
+func c09monitor() {
+	for {
+		time.Sleep(20 * time.Millisecond)
+		limit := c09monLimit.Load()
+		if limit == 0 {
+			continue
+		}
+		metrics.Read(c09monSample)
+		if c09monSample[0].Value.Uint64() <= limit {
+			continue
+		}
+		cs := c09monCase.Load()
+		buf := make([]byte, 1<<20)
+		st := string(buf[:runtime.Stack(buf, true)])
+		site := "unknown"
+		for _, l := range strings.Split(st, "\n") {
+			if strings.HasPrefix(l, "github.com/go-text/typesetting/") {
+				site = strings.TrimPrefix(l, "github.com/go-text/typesetting/")
+				if i := strings.LastIndex(site, "("); i > 0 {
+					site = site[:i]
+				}
+				break
+			}
+		}
+		// the eager decoding of GSUB/GPOS is one class, wherever the sample falls
+		for _, fn := range []string{"tables.ParseLayout(", "font.newGSUB(", "font.newGPOS("} {
+			if strings.Contains(st, fn) {
+				site = c09layoutClass
+			}
+		}
+		mc.ExitWithViolation("C09:alloc@"+site, cs, fmt.Sprintf("allocation law exceeded while the case was still running (more than twice the budget): %s %s off=%d val=%#x", cs.File, cs.Kind, cs.Off, cs.Val))
+	}
+}
+
+const c09layoutClass = "GSUB/GPOS script-feature-lookup lists (overlapping offsets)"
+
 func (e *c09env) one(b []byte, cs *c09case, fileLen int) {
 	r := e.r
+	if cs.Kind != "none" && e.nblk > 1 {
+		e.idx++
+		if e.idx%e.nblk != e.blk {
+			e.outcome = e.baseOutcome // not a change
+			return
+		}
+	}
+	c09monOnce.Do(func() { go c09monitor() })
 	r.Eval()
 	r.Journal(fmt.Sprintf("%s %s off=%d val=%#x a=%d b=%d", cs.File, cs.Kind, cs.Off, cs.Val, cs.A, cs.B))
 	before := c09allocated()
 	t0 := time.Now()
+	if !e.noMonitor {
+		c09monCase.Store(cs)
+		c09monLimit.Store(before + 2*uint64(64<<20+256*fileLen))
+	}
 	ok := r.Guard("C09", cs, func() { e.drive(b) })
+	c09monLimit.Store(0)
 	after := c09allocated()
 	if d := time.Since(t0); d > 2*time.Second {
 		r.Count("cases_over_2s(informative)", 1)
@@ -357,7 +421,7 @@ func (e *c09env) one(b []byte, cs *c09case, fileLen int) {
 		for _, list := range []string{"ParseScript", "ParseLangSys", "ParseFeature", "ParseLookup", "parseLookupList", "(*ScriptList).parseScripts", "(*Script).parseLangSys", "(*FeatureList).parseFeatures"} {
 			if site == "font/opentype/tables."+list {
 				// one class: the script, feature and lookup lists of GSUB/GPOS are copied eagerly, record by record, even when the offsets of the records overlap
-				site = "GSUB/GPOS script-feature-lookup lists (overlapping offsets)"
+				site = c09layoutClass
 			}
 		}
 		r.Violation("C09:alloc@"+site, cs, fmt.Sprintf("%s %s at %d = %#x (table %s): %d bytes allocated for a %d byte file (budget %d)", cs.File, cs.Kind, cs.Off, cs.Val, cs.Tab, after-before, fileLen, budget))
@@ -411,16 +475,44 @@ func (e *c09env) allocSite(b []byte) string {
 	return best
 }
 
+// c09blocks: the faults of a file are dealt round-robin into blocks of about 6000, one shard each
+func c09blocks(tier string, i int) int {
+	f := &corpus.Files()[i]
+	n := len(f.Data)
+	thor := tier == "thorough"
+	full := c09full(tier, i, n)
+	dir := c09directory(f.Data)
+	pos, truncs := c09positions(f.Data, dir, full, !thor && n > 256<<10, !thor)
+	per := 5 + 2 + 2*2 // quick header model: 16-bit, 32-bit on every other position, two bytes x 2
+	if thor {
+		per = 9 + 7 + 2*6
+	} else if full {
+		per = 5 + 2 + 2*6
+	}
+	total := len(pos)*per + len(truncs) + len(dir)*len(dir)/2
+	return 1 + total/6000
+}
+
+func c09full(tier string, i, n int) bool {
+	if tier == "thorough" {
+		return n <= 8192
+	}
+	return n <= 2048 && i%8 == 0
+}
+
 func c09Run(tier, shard string, r *mc.Reporter) {
-	i, _ := strconv.Atoi(shard)
+	parts := strings.Split(shard, "/")
+	i, _ := strconv.Atoi(parts[0])
+	blk, nblk := 0, 1
+	if len(parts) == 3 {
+		blk, _ = strconv.Atoi(parts[1])
+		nblk, _ = strconv.Atoi(parts[2])
+	}
 	f := &corpus.Files()[i]
 	orig := f.Data
 	n := len(orig)
 	thor := tier == "thorough"
-	full := n <= 2048 && i%8 == 0
-	if thor {
-		full = n <= 8192
-	}
+	full := c09full(tier, i, n)
 	dir := c09directory(orig)
 	for _, t := range dir {
 		if !thor && (t.tag == "morx" || t.tag == "mort") {
@@ -439,11 +531,15 @@ func c09Run(tier, shard string, r *mc.Reporter) {
 		return
 	}
 	baseOutcome := e.outcome
+	e.baseOutcome = baseOutcome
+	e.blk, e.nblk = blk, nblk
 	pos, truncs := c09positions(orig, dir, full, !thor && n > 256<<10, !thor)
-	if full {
-		r.Count("files_full_model", 1)
-	} else {
-		r.Count("files_header_model", 1)
+	if blk == 0 {
+		if full {
+			r.Count("files_full_model", 1)
+		} else {
+			r.Count("files_header_model", 1)
+		}
 	}
 	var otherOffs []uint32
 	for k, t := range dir {
@@ -498,6 +594,34 @@ func c09Run(tier, shard string, r *mc.Reporter) {
 			copy(buf[p:p+4], orig[p:p+4])
 		}
 	}
+	// every byte of the position set: neighbours, extremes, sign flip and 0x20 (the most negative one-byte DICT operand)
+	for _, p0 := range pos {
+		if r.Expired() {
+			break
+		}
+		for p := p0; p < p0+2 && p < n; p++ {
+			tab, _ := c09tableAt(dir, p)
+			v := orig[p]
+			done := map[byte]bool{v: true}
+			vals := []byte{v + 1, v - 1, 0x00, 0xFF, v ^ 0x80, 0x20}
+			if !thor && !full {
+				vals = []byte{v + 1, v ^ 0x80}
+			}
+			for _, nv := range vals {
+				if done[nv] {
+					continue
+				}
+				done[nv] = true
+				buf[p] = nv
+				cs := c09case{File: f.Name, Kind: "set8", Off: p, Val: uint32(nv), Tab: tab}
+				e.one(buf, &cs, n)
+				if e.outcome != baseOutcome {
+					changed++
+				}
+			}
+			buf[p] = v
+		}
+	}
 	for _, l := range truncs {
 		if r.Expired() {
 			break
@@ -531,9 +655,12 @@ func c09Run(tier, shard string, r *mc.Reporter) {
 
 // largest files first: their shards are the longest
 func c09Shards(tier string) []string {
-	s := shShards(tier)
-	for i, j := 0, len(s)-1; i < j; i, j = i+1, j-1 {
-		s[i], s[j] = s[j], s[i]
+	var s []string
+	for i := len(corpus.Files()) - 1; i >= 0; i-- {
+		k := c09blocks(tier, i)
+		for b := 0; b < k; b++ {
+			s = append(s, fmt.Sprintf("%d/%d/%d", i, b, k))
+		}
 	}
 	return s
 }
@@ -541,6 +668,8 @@ func c09Shards(tier string) []string {
 func c09apply(orig []byte, cs *c09case) []byte {
 	buf := append([]byte(nil), orig...)
 	switch cs.Kind {
+	case "set8":
+		buf[cs.Off] = byte(cs.Val)
 	case "set16":
 		binary.BigEndian.PutUint16(buf[cs.Off:], uint16(cs.Val))
 	case "set32":
@@ -572,18 +701,18 @@ func c09Replay(raw json.RawMessage, r *mc.Reporter) {
 		fmt.Println("unknown corpus file", cs.File)
 		return
 	}
-	e := &c09env{r: r, glyphs: 512, thor: true}
+	e := &c09env{r: r, glyphs: 512, thor: true, noMonitor: true}
 	e.one(c09apply(f.Data, &cs), &cs, len(f.Data))
 }
 
 func init() {
 	Register(&mc.Check{
 		ID: "C09", Level: "fault_enumeration",
-		Rule:        "for every single fault (16/32-bit field value, truncation, directory swap) on every corpus file: loading and the whole query surface and shaping return without panic, hang or worker death, allocating at most 64 MiB + 256 x len(file) bytes",
+		Rule:        "for every single fault (8/16/32-bit field value, truncation, directory swap) on every corpus file: loading and the whole query surface and shaping return without panic, hang or worker death, allocating at most 64 MiB + 256 x len(file) bytes",
 		Assumptions: []string{"one fault per file (pairs only as directory swaps)", "positions: whole file up to the tier's size bound, else container header, directory, first 64 bytes of every table and every table <= 256 bytes", "coverage-guided random mutation named by the property is sampling and is not part of this check", "time is bounded by the per-case watchdog only (no wall-clock proportionality oracle)"},
 		Shards:      c09Shards, Run: c09Run, Replay: c09Replay,
 		Watchdog: 120 * time.Second, MemLimit: 16 << 30,
 		Deadline: map[string]time.Duration{"thorough": 55 * time.Minute},
-		Bounds: map[string]string{"quick": "directory swaps for files <= 256 KiB; full model (every aligned position, every prefix) for every 8th file <= 2 KiB (without morx/mort); header model for the others (first 24 bytes of every table, tables <= 96 bytes; files > 256 KiB: directory and the first 8 bytes of every table, 2 faces); reduced value sets (5 16-bit values, 4 32-bit values); 24 glyphs per face (14 per variation setting), 2 variation settings, 2 directions", "thorough": "full model for every file <= 8 KiB; header model for larger files; full value sets (9 16-bit, 6 + up to 8 table offsets 32-bit); 512 glyphs per face, 4 variation settings, 3 directions"},
+		Bounds:   map[string]string{"quick": "directory swaps for files <= 256 KiB; full model (every aligned position, every prefix) for every 8th file <= 2 KiB (without morx/mort); header model for the others (first 16 bytes of every table, tables <= 64 bytes; files > 256 KiB: directory and the first 8 bytes of every table, 2 faces); reduced value sets (5 16-bit values, 4 32-bit values); 24 glyphs per face (14 per variation setting), 2 variation settings, 2 directions", "thorough": "full model for every file <= 8 KiB; header model for larger files; full value sets (9 16-bit, 6 + up to 8 table offsets 32-bit); 512 glyphs per face, 4 variation settings, 3 directions"},
 	})
 }
